@@ -169,6 +169,29 @@ var probes = []probe{
 		grp, _ := vt.Query("industrialBalanceOf", u.Addr)
 		return plain == `"450"`, fmt.Sprintf("answer err=%v done ok=%v msg=%q plain=%s groups=%s", ans.Resp.GetSwapResponses()[0].GetError(), r.OK(), r.Resp.Message, plain, grp)
 	}},
+	{"C04-foreign-multiswap-cancel-fails-the-batch", func() (bool, string) {
+		// one batch: a transfer, and a multiSwapCancel by somebody who is not the creator. The
+		// refusal's error text embeds the creator's raw address bytes; if the reply cannot be
+		// encoded because of it the WHOLE batch fails and the transfer is lost with it.
+		w := world.New(3, fpb.KeyType_ed25519)
+		c := w.AddChannel("VT", world.Options{})
+		owner, stranger := w.Users[0], w.Users[1]
+		c.Do(w.Issuer, "emitIndustrial", owner.Addr, "100", "G1")
+		c.Do(w.Issuer, "emit", owner.Addr, "1000")
+		h := sha3.Sum256([]byte("k"))
+		sid, r0 := c.Submit("multiSwapBegin", c.Signed(owner, "multiSwapBegin", "VT", `{"assets":[{"group":"VT_G1","amount":"10"}]}`, "CC", hex.EncodeToString(h[:])))
+		b0 := c.ExecIDs(sid)
+		id1, _ := c.Submit("transfer", c.Signed(owner, "transfer", w.Users[2].Addr, "5", "ref"))
+		id2, _ := c.Submit("multiSwapCancel", c.Signed(stranger, "multiSwapCancel", sid))
+		b := c.ExecIDs(id1, id2)
+		got := bal(c, w.Users[2].Addr)
+		failed := b.Resp == nil
+		msg := ""
+		if failed {
+			msg = b.Res.Resp.Message
+		}
+		return failed || got != `"5"`, fmt.Sprintf("begin submit ok=%v executed=%v; batch [transfer, foreign cancel] whole-batch failure=%v msg=%q recipient balance=%s", r0.OK(), b0.Resp != nil && b0.Resp.TxResponses[0].GetError() == nil, failed, msg, got)
+	}},
 }
 
 func main() {
